@@ -265,6 +265,20 @@ def _subset_task(chunk):
     return acc
 
 
+def _scale_task(fam):
+    """Scale: 6,000 distinct valid vectors of one family offered to all three classes in one
+    process, each followed by a rejected variant of itself, then the first hundred again."""
+    from .. import spaces
+    acc = sweep.new_acc()
+    vs = spaces.many_vectors(fam, 6000)
+    for v in vs + vs[:100]:
+        judge(acc, v)
+        judge(acc, v + "/")
+        if acc["bad"]:
+            break
+    return acc
+
+
 def _short_task(t):
     chars, prefix_list, maxlen = t
     acc = sweep.new_acc()
@@ -308,6 +322,8 @@ def run(ctx, res):
     subs = subset_strings()
     accs3 += core.task_map(_subset_task, [subs[i::8] for i in range(8)])
     stats["subset_strings"] = len(subs)
+    accs3 += core.task_map(_scale_task, list(T.FAMILIES))
+    stats["scale_vectors_per_family_in_one_process"] = 6000
     extra = sweep.new_acc()
     for s in [""] + firsts:
         judge(extra, s)
